@@ -7,11 +7,16 @@ S1  TLC checks specs/C18: MCMol (connection tables V2000 / V3000: round trip, fi
     text, stored under other names, headers / metadata edited in place or replaced, structures set,
     write -> read after every call; the representation "still text / already an object" of every
     record, header and metadata block is part of the state).
+    MCRd: the RDKit bridge with its options - to_mol(explicit_hydrogen None/True/False, kekulize,
+    use_dative_bonds) x from_mol(add_hydrogen None/True/False, conformer_id None/"3D"/0) x molecules with
+    hydrogen atoms / without and with an open valence / without and saturated; the step-by-step model of
+    the two calls (SetNoImplicit, AddHs) against the declarative table "when is the round trip the identity".
 S2  every input enumerated by TLC is executed against MOLFile / SDFile / to_mol+from_mol and compared
     with the spec's values (V2000 lines character by character); every transition of the state graph
     of MCHist is replayed against the real SDFile, the file written and read back after every call.
 S3  seeded random molecules (1..1500 atoms, 46..120 atoms with 999..1035 bonds, stacks of 1..4 models
-    through RDKit, random SD files, random histories of 3..8 calls on SD files) are recorded and
+    through RDKit with all nine pairs of hydrogen options in turn and random other options, with no / some /
+    all hydrogens present, random SD files, random histories of 3..8 calls on SD files) are recorded and
     re-computed event by event by TLC (specs/C18/Trace.tla).
 """
 
@@ -63,6 +68,7 @@ def explode_mol(m):
 def warmup():
     import biotite.structure  # noqa: F401
     import biotite.structure.io.mol  # noqa: F401
+    import biotite.interface.rdkit  # noqa: F401  (RDKit is imported once per pool child, not once per item)
 
 
 def build_mol(m, nmodels=1, as_stack=False):
@@ -135,24 +141,45 @@ def run_ctab(m, version, dflt):
     return ev
 
 
-def run_rd(m, nmodels, dative, ring=False):
+TRI = {"None": None, "True": True, "False": False}
+CONF = {"all": None, "3D": "3D", "first": 0}
+
+
+def plain_opt(dative):
+    """the option combination in which RDKit's hydrogen model plays no part (RdkitBridge!PlainOpt)"""
+    return {"eh": "True", "ah": "False", "kek": False, "dative": bool(dative), "conf": "all"}
+
+
+def run_rd(m, nmodels, opt, ring=False):
+    """to_mol(stack of nmodels models, options) -> from_mol(options); opt as RdkitBridge!Opt (a bool: PlainOpt)."""
     import numpy as np
+    import biotite.structure as struc
     from biotite.interface import rdkit as brd
 
-    ev = {"op": "rd", "m": m, "nmodels": nmodels, "dative": dative, "ring": ring, "oc": "ok",
-          "back": {"nmodels": 0, "atoms": [], "bonds": [], "coords_same": False}, "err": ""}
+    if not isinstance(opt, dict):
+        opt = plain_opt(opt)
+    ev = {"op": "rd", "m": m, "nmodels": nmodels, "opt": opt, "dative": opt["dative"], "ring": ring, "oc": "ok",
+          "back": {"nmodels": 0, "stack": False, "atoms": [], "bonds": [], "coords_same": False}, "err": ""}
     try:
         arr = build_mol(m, nmodels, as_stack=(nmodels > 1))
+        n = arr.array_length()
         with warnings.catch_warnings():
             warnings.simplefilter("ignore")
-            mol = brd.to_mol(arr, explicit_hydrogen=True, use_dative_bonds=bool(dative))
-            back = brd.from_mol(mol, add_hydrogen=False)
+            mol = brd.to_mol(arr, explicit_hydrogen=TRI[opt["eh"]], kekulize=bool(opt["kek"]),
+                             use_dative_bonds=bool(opt["dative"]))
+            back = brd.from_mol(mol, conformer_id=CONF[opt["conf"]], add_hydrogen=TRI[opt["ah"]])
         c_in = arr.coord if arr.coord.ndim == 3 else arr.coord[None]
-        ev["back"] = {"nmodels": int(back.stack_depth()),
+        stack = isinstance(back, struc.AtomArrayStack)
+        c_out = back.coord if stack else back.coord[None]
+        if opt["conf"] == "first":
+            c_in = c_in[:1]
+        ev["back"] = {"nmodels": int(c_out.shape[0]), "stack": bool(stack),
                       "atoms": [{"elem": str(back.element[i]), "chg": int(back.charge[i])}
                                 for i in range(back.array_length())],
                       "bonds": sorted([int(i), int(j), int(t)] for i, j, t in back.bonds.as_array().tolist()),
-                      "coords_same": bool(back.coord.shape == c_in.shape and np.array_equal(back.coord, c_in))}
+                      # the molecule is the prefix of the result: its atoms keep their coordinates in every model
+                      "coords_same": bool(c_out.shape[0] == c_in.shape[0] and c_out.shape[1] >= n
+                                          and np.array_equal(c_out[:, :n], c_in))}
     except AssertionError:
         raise
     except Exception as e:
@@ -419,20 +446,46 @@ def compare_ctab(case, ev):
     return mm, diag
 
 
+def rd_projection(g, n):
+    """canonical form of a result of from_mol against a molecule of n atoms: the prefix, the bonds inside it,
+    the number of appended hydrogens per atom, and whether every appended atom is a hydrogen without charge
+    that has exactly one bond, a SINGLE bond to an atom of the prefix"""
+    bonds = [tuple(b) for b in g["bonds"]]
+    inner = [b for b in bonds if b[0] < n and b[1] < n]
+    hcount = [sum(1 for b in bonds if b[0] == i and b[1] >= n) for i in range(n)]
+    wellformed = len(set((b[0], b[1]) for b in bonds)) == len(bonds)
+    for e in range(n, len(g["atoms"])):
+        at = [b for b in bonds if e in (b[0], b[1])]
+        if g["atoms"][e] != {"elem": "H", "chg": 0} or len(at) != 1 or at[0][2] != 1 or not at[0][0] < n:
+            wellformed = False
+    return {"prefix": [[a["elem"], a["chg"]] for a in g["atoms"][:n]], "inner": inner, "hcount": hcount,
+            "extra_wellformed": wellformed, "n_extra": max(0, len(g["atoms"]) - n)}
+
+
 def compare_rd(case, ev, x):
-    base = {"case": {"m": case["m"], "dative": ev["dative"], "nmodels": ev["nmodels"]},
-            "kb": x["kb"]}
+    """x: the spec's ExpectRdOpt (oc, nmodels, stack, atoms, hs with -1 = left to RDKit, bonds with image sets)"""
+    base = {"case": {"m": case["m"], "opt": ev["opt"], "dative": ev["opt"]["dative"], "nmodels": ev["nmodels"]},
+            "kb": x["kb"], "cls": x.get("cls", "")}
     g = ev["back"]
+    if ev["oc"] != x["oc"]:
+        return [dict(base, kind="rd-refused" if ev["oc"] != "ok" else "rd-accepted", expected=x["oc"],
+                     observed=ev["err"] or ev["oc"])]
     if ev["oc"] != "ok":
-        return [dict(base, kind="rd-refused", expected="ok", observed=ev["err"])]
-    if g["nmodels"] != x["nmodels"] or not g["coords_same"]:
-        return [dict(base, kind="rd-models", expected=x["nmodels"], observed=[g["nmodels"], g["coords_same"]])]
-    if [[a["elem"], a["chg"]] for a in g["atoms"]] != [[a["elem"], a["chg"]] for a in x["atoms"]]:
+        return []
+    n = len(x["atoms"])
+    if g["nmodels"] != x["nmodels"] or g["stack"] != x["stack"] or not g["coords_same"]:
+        return [dict(base, kind="rd-models", expected=[x["nmodels"], x["stack"]],
+                     observed=[g["nmodels"], g["stack"], g["coords_same"]])]
+    pr = rd_projection(g, n)
+    if pr["prefix"] != [[a["elem"], a["chg"]] for a in x["atoms"]]:
         return [dict(base, kind="rd-atoms", expected=x["atoms"], observed=g["atoms"])]
-    gb = {(b[0], b[1]): b[2] for b in g["bonds"]}
+    if not pr["extra_wellformed"] or any(h != -1 and h != c for h, c in zip(x["hs"], pr["hcount"])):
+        return [dict(base, kind="rd-hydrogens", expected={"hs": x["hs"], "unspecified": -1},
+                     observed={"hcount": pr["hcount"], "atoms": g["atoms"], "bonds": g["bonds"]})]
+    gb = {(b[0], b[1]): b[2] for b in pr["inner"]}
     ok = len(gb) == len(x["bonds"]) and all((b[0], b[1]) in gb and gb[(b[0], b[1])] in b[2] for b in x["bonds"])
     if not ok:
-        return [dict(base, kind="rd-bonds", expected=x["bonds"], observed=g["bonds"])]
+        return [dict(base, kind="rd-bonds", expected=x["bonds"], observed=[list(b) for b in pr["inner"]])]
     return []
 
 
@@ -530,9 +583,14 @@ def exec_cases(item):
             for k, x in enumerate(case.get("rd", [])):
                 dative = k == 1
                 progress({"t": "rd", "m": case["m"], "dative": dative})
-                evr = run_rd(case["m"], x["nmodels"], dative)
+                evr = run_rd(case["m"], x["nmodels"], plain_opt(dative))
                 n += 1
                 mism += compare_rd(case, evr, x)
+        elif case["t"] == "rd":
+            progress({"t": "rd", "m": case["m"], "opt": case["opt"], "nmodels": case["nmodels"]})
+            evr = run_rd(case["m"], case["nmodels"], case["opt"])
+            n += 1
+            mism += compare_rd(case, evr, case["exp"])
         else:
             progress({"t": "sd"})
             ev = run_sd(case["recs"])
@@ -618,6 +676,7 @@ def record_cases(item):
 
     rng = random.Random(item["seed"])
     events = []
+    nrd = rng.randrange(9)
     for c in range(item["count"]):
         r = rng.random()
         edge = rng.random() < 0.3
@@ -640,23 +699,48 @@ def record_cases(item):
             progress({"op": "ctab", "m": m if n < 10 else n, "version": version})
             events.append(run_ctab(m, version, dflt))
         elif r < 0.75:
+            nrd += 1
             ring = rng.random() < 0.3
+            # the hydrogen options go round (every item passes through all nine pairs), the others are drawn
+            opt = {"eh": ["True", "None", "False"][nrd % 3], "ah": ["None", "False", "True"][(nrd // 3) % 3],
+                   "kek": rng.random() < 0.25, "dative": rng.random() < 0.5,
+                   "conf": rng.choice(["all", "all", "all", "3D", "first"])}
+            hydrogens = rng.choice(["none", "none", "some", "saturate"])
             if ring:
-                n = 6
                 t = rng.choice([None, 9, 7, 5])
                 m = {"atoms": [{"elem": "C", "xyz": [[rng.randrange(-640, 640), 64] for _ in range(3)], "chg": 0} for _ in range(6)],
                      "bonds": sorted([min(i, (i + 1) % 6), max(i, (i + 1) % 6), (5 + i % 2) if t is None else t] for i in range(6))}
+                if hydrogens != "none":           # benzene with its hydrogens (or a part of them)
+                    for i in range(6 if hydrogens == "saturate" else rng.randint(1, 5)):
+                        m["atoms"].append({"elem": "H", "xyz": [[rng.randrange(-640, 640), 64] for _ in range(3)], "chg": 0})
+                        m["bonds"].append([i, len(m["atoms"]) - 1, 1])
             else:
                 m = gen_mol(rng, rng.randint(1, 12), False)
                 for b in m["bonds"]:
                     if b[2] in (5, 6, 7, 9) and rng.random() < 0.7:
                         b[2] = rng.choice([0, 1, 2, 3, 4, 8])
+                    elif rng.random() < 0.5:
+                        b[2] = rng.choice([1, 1, 2])     # plain bonds: the valence model of the spec decides more atoms
                 for a in m["atoms"]:
                     a["xyz"] = [[rng.randrange(-9999 * 64, 9999 * 64), 64] for _ in range(3)]
+                    if hydrogens == "none" and a["elem"] == "H":
+                        a["elem"] = rng.choice(["C", "C", "N", "O"])
+                    if rng.random() < 0.5:
+                        a["chg"] = 0
+                if hydrogens == "saturate":       # every open valence of the organic subset filled with a hydrogen atom
+                    order = {1: 1, 2: 2, 3: 3}
+                    for i in range(len(m["atoms"])):
+                        val = {"C": 4, "N": 3, "O": 2}.get(m["atoms"][i]["elem"])
+                        bt = [b[2] for b in m["bonds"] if i in (b[0], b[1])]
+                        if val is None or m["atoms"][i]["chg"] or any(t not in order for t in bt):
+                            continue
+                        for _ in range(max(0, val - sum(bt))):
+                            m["atoms"].append({"elem": "H", "xyz": [[rng.randrange(-640, 640), 64] for _ in range(3)], "chg": 0})
+                            m["bonds"].append([i, len(m["atoms"]) - 1, 1])
+                    m["bonds"].sort()
             nm = rng.randint(1, 4)
-            dative = rng.random() < 0.5
-            progress({"op": "rd", "m": m, "nmodels": nm, "dative": dative})
-            events.append(run_rd(m, nm, dative, ring))
+            progress({"op": "rd", "m": m, "nmodels": nm, "opt": opt})
+            events.append(run_rd(m, nm, opt, ring))
         elif r < 0.88:
             recs = gen_recs(rng, rng.randint(1, 4))
             progress({"op": "sd", "names": [x["header"]["mol_name"] for x in recs]})
@@ -819,6 +903,13 @@ def _t(v):
 def fix_mol(m):
     return {"atoms": [{"elem": _t(a["elem"]), "xyz": a["xyz"], "chg": a["chg"]} for a in m["atoms"]],
             "bonds": [list(b) for b in m["bonds"]]}
+
+
+def fix_rd(x):
+    """ExpectRdOpt of RdkitBridge.tla (to_py form)"""
+    return {"oc": x["oc"], "nmodels": x["nmodels"], "stack": x["stack"], "kb": x["kb"], "cls": x["cls"],
+            "atoms": [{"elem": _t(a["elem"]), "chg": a["chg"]} for a in x["atoms"]], "hs": list(x["hs"]),
+            "bonds": [list(b) for b in x["bonds"]]}
 
 
 def fix_back(b):
@@ -995,7 +1086,9 @@ def run(ctx):
         "Dom_Mol: >= 1 atom, elements upper case without blanks (the writer capitalises, the reader upper-cases), bonds i < j, one bond per pair",
         "coordinates are dyadic rationals exactly representable in float32; the five-digit limit is tested on the representable neighbours of the column limits",
         "bond types without a ctab counterpart (QUADRUPLE, AROMATIC_TRIPLE, COORDINATION) return as the default bond type: specified behaviour, not a loss",
-        "RDKit: to_mol(explicit_hydrogen=True) / from_mol(add_hydrogen=False); aromatic bonds may return as any valid Kekule assignment (AROMATIC_SINGLE / AROMATIC_DOUBLE) or as generic AROMATIC where RDKit cannot kekulize; elements are valid symbols",
+        "RDKit: aromatic bonds may return as any valid Kekule assignment (AROMATIC_SINGLE / AROMATIC_DOUBLE) or as generic AROMATIC where RDKit cannot kekulize (with kekulize=True as their plain orders, generic AROMATIC as ANY); elements are valid symbols (Dom_Rd)",
+        "RDKit options: the round trip is demanded to be the identity on atoms whenever every hydrogen is explicit (explicit_hydrogen=True, or the default with a hydrogen atom in the molecule) or from_mol adds none (add_hydrogen=False, or the default with a hydrogen atom present); explicit_hydrogen=False with hydrogen atoms is the documented refusal; in the remaining combinations (no hydrogen atom, hydrogens implicit and added) the molecule has to come back as the prefix of the result - atoms in order, charges, bonds, coordinates of every model - followed only by uncharged hydrogen atoms with one SINGLE bond each to an atom of the molecule; how many is RDKit's valence model (trusted), except for neutral C, N, O, F, Cl, Br atoms whose bonds are plain single / double / triple bonds within the default valence (ImplicitHs: valence minus bond orders)",
+        "RDKit conformers: conformer_id None and '3D' return every model (to_mol marks every conformer 3D), conformer_id=0 returns the first model as an AtomArray; ids > 0 and '2D' are not decided",
         "Dom_Header: fields within their documented widths, no outer blanks, time at minute precision within 1969..2068",
         "Dom_Meta: keys distinct and within the key grammar; value lines non-empty, without outer blanks, not starting with '>' or '$$$$' (the reader strips lines, skips empty ones, takes '>' lines for keys)",
         "record names pairwise different, not starting with '$$$$'",
@@ -1003,25 +1096,27 @@ def run(ctx):
         "exceptions are compared as 'Rejected' (any exception)",
         "trusted: TLC, the TLA+ value parser, numpy, RDKit, the projection (annotation arrays, BondList.as_array)",
     ]
-    ctx.cov["rule"] = ("non-trivial = a written connection table with >= 1 bond or a charged atom, an RDKit round "
+    ctx.cov["rule"] = ("non-trivial = a written connection table with >= 1 bond or a charged atom, an accepted RDKit round "
                        "trip with >= 1 bond, an SD file with metadata or >= 2 records, a history of >= 2 calls")
     d = tlc.scratch_dir("c18")
-    md_, sd_ = os.path.join(d, "mol"), os.path.join(d, "sd")
+    md_, sd_, rd_ = os.path.join(d, "mol"), os.path.join(d, "sd"), os.path.join(d, "rd")
     nitems = 12 if quick else 120
     per = 20 if quick else 100
     s3items = [{"seed": ctx.rng.randrange(1 << 30), "count": per, "big": ["atoms", "", "bonds", ""][k % 4]} for k in range(nitems)]
     dotf = os.path.join(d, "hist.dot")
-    with ThreadPoolExecutor(max_workers=4) as ex:
+    with ThreadPoolExecutor(max_workers=5) as ex:
         fm = ex.submit(ctx.tlc, "MCMol", f"MC{suf}.cfg", stage="S1-mol", dump=md_, workers=8 if quick else 16, timeout=2400)
         time.sleep(0.2)
         fs = ex.submit(ctx.tlc, "MCSd", f"MCSd{suf}.cfg", stage="S1-sd", dump=sd_, workers=4, timeout=1500)
+        time.sleep(0.2)
+        fr = ex.submit(ctx.tlc, "MCRd", f"MCRd{suf}.cfg", stage="S1-rd", dump=rd_, workers=2 if quick else 8, timeout=1500)
         time.sleep(0.2)
         # the dot dump is only reliable with one worker
         fh = ex.submit(ctx.tlc, "MCHist", f"MCHist{suf}.cfg", stage="S1-hist", dump_dot=dotf, workers=1, timeout=2400)
         time.sleep(0.2)
         f3 = ex.submit(helpers.run_pool, ctx, "harness.drivers.c18:record_cases", s3items, stage="S3",
                        item_timeout=600, procs=6 if quick else 16)
-        rm, rs, s3res = fm.result(), fs.result(), f3.result()
+        rm, rs, rr, s3res = fm.result(), fs.result(), fr.result(), f3.result()
         fh.result()
     ctx.exhaustive = True
 
@@ -1037,8 +1132,7 @@ def run(ctx):
         e = st["out"]["ctab"]
         exp = {"oc": e["oc"], "lines": [_t(x) for x in e["lines"]], "back": fix_back(e["back"]),
                "alt": [_t(x) for x in e["alt"]], "kb": e["kb"], "lenient": e["lenient"], "dom": e["dom"]}
-        rd = [{"nmodels": x["nmodels"], "kb": x["kb"], "atoms": [{"elem": _t(a["elem"]), "chg": a["chg"]} for a in x["atoms"]],
-               "bonds": [list(b) for b in x["bonds"]]} for x in st["out"]["rd"]]
+        rd = [fix_rd(x) for x in st["out"]["rd"]]
         cases.append({"t": "ctab", "m": fix_mol(m), "version": version, "dflt": dflt, "exp": exp, "rd": rd})
     cases.sort(key=lambda c: json.dumps([c["m"], c["version"], c["dflt"]], sort_keys=True))
     nctab = len(cases)
@@ -1053,8 +1147,44 @@ def run(ctx):
         sdcases.append({"t": "sd", "recs": fix_recs(st["inp"]), "exp": exp})
     sdcases.sort(key=lambda c: json.dumps(c["recs"], sort_keys=True))
     cases += sdcases
-    if 2 * len(cases) != rm.distinct + rs.distinct:
-        raise RuntimeError(f"dump/state mismatch: {len(cases)} cases, {rm.distinct + rs.distinct} states")
+    # the RDKit bridge with its options (MCRd): molecule classes x option combinations
+    rdcases = []
+    for st in load_states(dpath(rd_)):
+        if not st["done"]:
+            continue
+        m, nmodels, opt = st["inp"]
+        rdcases.append({"t": "rd", "m": fix_mol(m), "nmodels": nmodels, "opt": opt, "exp": fix_rd(st["out"])})
+    rdcases.sort(key=lambda c: json.dumps([c["m"], c["nmodels"], c["opt"]], sort_keys=True))
+    cases += rdcases
+    if 2 * len(cases) != rm.distinct + rs.distinct + rr.distinct:
+        raise RuntimeError(f"dump/state mismatch: {len(cases)} cases, {rm.distinct + rs.distinct + rr.distinct} states")
+    # every pair of hydrogen options on every class of molecules, with the outcome the option table gives it
+    combos = {}
+    for c in rdcases:
+        x = c["exp"]
+        what = "refused" if x["oc"] != "ok" else ("identity" if all(h == 0 for h in x["hs"]) else
+                                                  ("hydrogens" if any(h > 0 for h in x["hs"]) else "unspecified"))
+        k = f'{x["cls"]}/eh={c["opt"]["eh"]}/ah={c["opt"]["ah"]}'
+        combos.setdefault(k, {}).setdefault(what, 0)
+        combos[k][what] += 1
+    ctx.cov["s2_rd_option_classes"] = {k: combos[k] for k in sorted(combos)}
+    missing = [f"{cl}/eh={eh}/ah={ah}" for cl in ("hasH", "noH-open", "noH-other") for eh in TRI for ah in TRI
+               if f"{cl}/eh={eh}/ah={ah}" not in combos]
+    if missing:
+        raise Vacuity(f"RDKit bridge: molecule class x hydrogen options never enumerated: {missing}")
+    for k, need in (("noH-open/eh=True/ah=None", "identity"), ("noH-open/eh=True/ah=True", "identity"),
+                    ("noH-open/eh=None/ah=None", "hydrogens"), ("noH-open/eh=False/ah=True", "hydrogens"),
+                    ("noH-open/eh=None/ah=False", "identity"), ("hasH/eh=None/ah=True", "identity"),
+                    ("hasH/eh=False/ah=None", "refused")):
+        if not combos[k].get(need):
+            raise Vacuity(f"RDKit bridge: no enumerated case {k} with expectation '{need}': {combos[k]}")
+    for what, pred in (("kekulize with an aromatic bond", lambda c: c["opt"]["kek"] and any(b[2] in (5, 6, 7, 9) for b in c["m"]["bonds"])),
+                       ("use_dative_bonds with a COORDINATION bond", lambda c: c["opt"]["dative"] and any(b[2] == 8 for b in c["m"]["bonds"])),
+                       ("conformer_id=0 on a stack", lambda c: c["opt"]["conf"] == "first" and c["nmodels"] > 1),
+                       ("conformer_id='3D'", lambda c: c["opt"]["conf"] == "3D"),
+                       ("a single model", lambda c: c["nmodels"] == 1)):
+        if not any(pred(c) for c in rdcases):
+            raise Vacuity(f"RDKit bridge: never enumerated: {what}")
     ocs, kbs, vers = {}, {}, {}
     for c in cases[:nctab]:
         ocs[c["exp"]["oc"]] = ocs.get(c["exp"]["oc"], 0) + 1
@@ -1084,7 +1214,9 @@ def run(ctx):
         return c["t"] == "ctab" and (len(c["m"]["atoms"]) > 100 or len(c["m"]["bonds"]) > 100)
     big = [c for c in cases if is_big(c)]
     small = [c for c in cases if not is_big(c)]
-    items = [{"cases": [c]} for c in big] + [{"cases": ch} for ch in _chunks(small, 30)]
+    small = [c for c in small if c["t"] != "rd"]
+    items = [{"cases": [c]} for c in big] + [{"cases": ch} for ch in _chunks(small, 30)] + \
+            [{"cases": ch} for ch in _chunks(rdcases, 100)]
     res = helpers.run_pool(ctx, "harness.drivers.c18:exec_cases", items, stage="S2", item_timeout=300)
     nexec = sum(r.get("n", 0) for r in res if r)
     diags = {}
@@ -1100,8 +1232,12 @@ def run(ctx):
     ctx.nontrivial += sum(1 for c in cases[:nctab] if c["exp"]["oc"] == "ok" and
                           (c["m"]["bonds"] or any(a["chg"] for a in c["m"]["atoms"])))
     ctx.nontrivial += sum(len(c.get("rd", [])) for c in cases[:nctab] if c["m"]["bonds"])
-    ctx.nontrivial += sum(1 for c in cases[nctab:] if c["exp"]["oc"] == "ok" and
+    ctx.nontrivial += sum(1 for c in sdcases if c["exp"]["oc"] == "ok" and
                           (len(c["recs"]) >= 2 or any(r["meta"] for r in c["recs"])))
+    ctx.nontrivial += sum(1 for c in rdcases if c["exp"]["oc"] == "ok" and c["m"]["bonds"])
+    ctx.cov["s2_rd_cases"] = len(rdcases)
+    c = next(x for x in rdcases if x["exp"]["oc"] == "ok" and any(h > 0 for h in x["exp"]["hs"]))
+    ctx.sample({"s2_rd_case": {"m": c["m"], "opt": c["opt"], "hs": c["exp"]["hs"]}})
     for c in [x for x in cases[:nctab] if x["exp"]["oc"] == "ok" and x["m"]["bonds"]][:2]:
         ctx.sample({"s2_case": {"m": c["m"], "version": c["version"], "lines": c["exp"]["lines"][:4]}})
     ctx.log(f"S2: {nexec} executions of {len(cases)} enumerated inputs")
@@ -1113,7 +1249,7 @@ def run(ctx):
     bad = []
     for tr in traces:
         for ev in tr:
-            if len(bad) >= 4:
+            if len(bad) >= 5:
                 break
             e2 = json.loads(json.dumps(ev))
             if ev["op"] == "ctab" and ev["oc"] == "ok" and len(ev["m"]["atoms"]) < 50 and ev["lines"][0][33:39].strip() == "V2000" \
@@ -1125,6 +1261,13 @@ def run(ctx):
                 bad.append([e2])
             elif ev["op"] == "rd" and ev["oc"] == "ok" and ev["back"]["atoms"] and not any(b["op"] == "rd" for t in bad for b in t):
                 e2["back"]["atoms"][0]["chg"] += 1
+                bad.append([e2])
+            elif ev["op"] == "rd" and ev["oc"] == "ok" and ev["opt"]["eh"] == "True" and ev["opt"]["conf"] != "first" \
+                    and len(ev["back"]["atoms"]) == len(ev["m"]["atoms"]) and not any(b.get("corrupt") == "rd-h" for t in bad for b in t):
+                # a hydrogen atom appears although every hydrogen was declared explicit
+                e2["back"]["atoms"].append({"elem": "H", "chg": 0})
+                e2["back"]["bonds"].append([0, len(ev["m"]["atoms"]), 1])
+                e2["corrupt"] = "rd-h"
                 bad.append([e2])
             elif ev["op"] == "hist" and ev["obs"] and ev["obs"][-1]["back"] and not any(b["op"] == "hist" for t in bad for b in t):
                 # the last observation shows the record under the name it had when it was read
@@ -1146,9 +1289,12 @@ def _event_json(ev):
                          "bonds": b["bonds"]}}
     if ev["op"] == "rd":
         b = ev["back"]
-        return {"op": "rd", "m": explode_mol(ev["m"]), "nmodels": ev["nmodels"], "dative": bool(ev["dative"]),
+        o = ev["opt"]
+        return {"op": "rd", "m": explode_mol(ev["m"]), "nmodels": ev["nmodels"],
+                "opt": {"eh": o["eh"], "ah": o["ah"], "kek": bool(o["kek"]), "dative": bool(o["dative"]), "conf": o["conf"]},
                 "ring": bool(ev["ring"]), "oc": ev["oc"],
-                "back": {"nmodels": b["nmodels"], "atoms": [{"elem": list(a["elem"]), "chg": a["chg"]} for a in b["atoms"]],
+                "back": {"nmodels": b["nmodels"], "stack": bool(b["stack"]),
+                         "atoms": [{"elem": list(a["elem"]), "chg": a["chg"]} for a in b["atoms"]],
                          "bonds": b["bonds"], "coords_same": b["coords_same"]}}
     def ex_back(rows):
         back = []
@@ -1197,7 +1343,7 @@ def validate(ctx, traces, selftest=False):
         for m in mms:
             _tag, tid, l, flags, kb, eoc = m[:6]
             ev = traces[lo + tid - 1][l - 1]
-            names = {"ctab": ["oc", "lines", "readback"], "rd": ["oc", "atoms", "bonds", "ring"],
+            names = {"ctab": ["oc", "lines", "readback"], "rd": ["oc", "atoms", "hydrogens", "bonds", "ring"],
                      "sd": ["oc", "names", "header", "meta", "ctab"],
                      "hist": ["oc", "keys", "names", "header", "meta", "ctab"]}[ev["op"]]
             failed = [n for n, f in zip(names, flags) if not f]
@@ -1210,13 +1356,21 @@ def validate(ctx, traces, selftest=False):
                 if small:
                     rec["replay"] = {"m": ev["m"], "version": ev["version"], "dflt": ev["dflt"]}
             elif ev["op"] == "rd":
-                rec.update(case={"m": ev["m"], "dative": ev["dative"], "nmodels": ev["nmodels"]}, observed=ev["back"]["bonds"])
+                n_in = len(ev["m"]["atoms"])
+                rec.update(case={"m": ev["m"], "opt": ev["opt"], "dative": ev["opt"]["dative"], "nmodels": ev["nmodels"]},
+                           observed=[b for b in ev["back"]["bonds"] if b[0] < n_in and b[1] < n_in])
                 if failed == ["bonds"]:
                     rec["kind"] = "rd-bonds"
                     rec["expected"] = m[6]          # the spec's image sets, printed by TLC
+                elif failed and failed[0] == "hydrogens":
+                    rec["kind"] = "rd-hydrogens"
+                    rec["expected"] = {"hs": m[7], "unspecified": -1}
+                    rec["observed"] = {"atoms": ev["back"]["atoms"], "bonds": ev["back"]["bonds"]}
                 else:
                     rec["kind"] = "rd-" + (failed[0] if failed else "event")
-                    rec["expected"] = "ok"
+                    rec["expected"] = eoc
+                    if failed and failed[0] != "oc":
+                        rec["observed"] = ev["back"]
             elif ev["op"] == "hist":
                 step = m[6]
                 o = ev["obs"][step - 1]
@@ -1244,6 +1398,16 @@ def validate(ctx, traces, selftest=False):
             for e in t:
                 ops[e["op"]] = ops.get(e["op"], 0) + 1
         ctx.cov["s3_events_per_op"] = ops
+        rdo = {}
+        for t in traces:
+            for e in t:
+                if e["op"] == "rd":
+                    has_h = any(a["elem"] == "H" for a in e["m"]["atoms"])
+                    added = len(e["back"]["atoms"]) - len(e["m"]["atoms"]) if e["oc"] == "ok" else "refused"
+                    k = f'eh={e["opt"]["eh"]}/ah={e["opt"]["ah"]}/{"hasH" if has_h else "noH"}/' + \
+                        (added if added == "refused" else ("hydrogens added" if added > 0 else "same atoms"))
+                    rdo[k] = rdo.get(k, 0) + 1
+        ctx.cov["s3_rd_hydrogen_options"] = {k: rdo[k] for k in sorted(rdo)}
         ctx.cov["s3_max_atoms"] = max([len(e["m"]["atoms"]) for t in traces for e in t if e["op"] == "ctab"] + [0])
         ctx.cov["s3_refused"] = sum(1 for t in traces for e in t if e["oc"] != "ok")
         hcalls = {}
@@ -1277,7 +1441,7 @@ def replay(record):
     if kind.startswith("hist") and "calls" in c:
         ev = run_hist(c["recs"], c["loaded"], c["calls"])
     elif kind.startswith("rd") and "m" in c:
-        ev = run_rd(c["m"], c["nmodels"], c["dative"])
+        ev = run_rd(c["m"], c["nmodels"], c.get("opt") or plain_opt(c["dative"]))
     elif kind.startswith("sd") and "recs" in record:
         ev = run_sd(record["recs"])
     elif "m" in c and "atoms" in c.get("m", {}):
@@ -1303,7 +1467,7 @@ def replay(record):
 
 
 MANIFEST = {
-    "technique": "TLA+ reference codec of MDL connection tables (V2000 fixed columns, V3000 tokens), SD headers / metadata keys / records and the RDKit bond-type tables (specs/C18) model-checked by TLC; every TLC-enumerated input executed against MOLFile, SDFile and to_mol/from_mol; an SDFile as a mutable mapping with a history (SdHist/MCHist) whose state graph is replayed transition by transition; recorded random executions and histories re-computed by TLC",
-    "level_text": "TLC enumerates one-atom molecules over element, coordinate (column-limit neighbours, ties) and charge classes (-15..15 and beyond), all bond types on 2- and 3-atom molecules with several default types, runs of charged atoms (M  CHG continuation), chains of 998..1001 atoms, 999 atoms with 1000 bonds and 45..200 atoms with 990..1203 bonds (each count of the counts line across its limit independently) in the three version modes, SD records over all key-component subsets, header width classes and 1-3 record files; the spec's invariants (round trip at 4 decimals, V2000 lines in their columns, version switch, implemented acceptance test = declarative fit except on named known-bad inputs, bond-type images, RDKit tables inverse on expressible types, header line 52 characters, key grammar round trip) hold on all of them; every input is executed against the real code (V2000 lines character by character, V3000 through the spec's reader, structures read back, RDKit round trips with 2 conformers); all histories of 2 (thorough: 3) calls out of reload, look at record / header / metadata, move to another name, insert a fresh or a parsed record, delete, set a header field, replace header / metadata, set / delete a metadata item, set the structure - starting from a freshly built and from a read two-record file - are enumerated with the lazy representation in the state, hold the invariants (write -> read is the identity, keys = molecule names, structures readable) and are replayed against the real SDFile with a write -> read observation after every call; seeded random molecules up to 1500 atoms, RDKit stacks of 1-4 models incl. aromatic six-rings, random SD files and random histories of 3-8 calls are recorded and re-computed by TLC.",
-    "level_note": "Bounded: exhaustive only over the enumerated classes; beyond them recorded random executions. Which Kekule structure RDKit picks is not decided (any valid one is accepted); RDKit's implicit-hydrogen model is bypassed (explicit_hydrogen=True / add_hydrogen=False); residue-level annotations through RDKit, 2D/3D conformer selection, metadata values with empty or blank-padded lines or lines starting with '>' are outside the domain. Trusted: TLC, the TLA+ value parser, numpy, RDKit, the projection.",
+    "technique": "TLA+ reference codec of MDL connection tables (V2000 fixed columns, V3000 tokens), SD headers / metadata keys / records and the RDKit bridge (bond-type tables, a step-by-step model of to_mol / from_mol with their hydrogen, kekulize, dative and conformer options against a declarative option table) (specs/C18) model-checked by TLC; every TLC-enumerated input executed against MOLFile, SDFile and to_mol/from_mol; an SDFile as a mutable mapping with a history (SdHist/MCHist) whose state graph is replayed transition by transition; recorded random executions and histories re-computed by TLC",
+    "level_text": "TLC enumerates one-atom molecules over element, coordinate (column-limit neighbours, ties) and charge classes (-15..15 and beyond), all bond types on 2- and 3-atom molecules with several default types, runs of charged atoms (M  CHG continuation), chains of 998..1001 atoms, 999 atoms with 1000 bonds and 45..200 atoms with 990..1203 bonds (each count of the counts line across its limit independently) in the three version modes, SD records over all key-component subsets, header width classes and 1-3 record files; the spec's invariants (round trip at 4 decimals, V2000 lines in their columns, version switch, implemented acceptance test = declarative fit except on named known-bad inputs, bond-type images, RDKit tables inverse on expressible types, header line 52 characters, key grammar round trip) hold on all of them; every input is executed against the real code (V2000 lines character by character, V3000 through the spec's reader, structures read back, RDKit round trips with 2 conformers); 48 molecules of the classes the hydrogen options distinguish (with hydrogen atoms, saturated or not; without hydrogen atoms and with an open valence; without and saturated / metals / ions; aromatic pairs and six-rings; COORDINATION bonds) are taken through to_mol(explicit_hydrogen None/True/False, kekulize, use_dative_bonds) x from_mol(add_hydrogen None/True/False, conformer_id None/'3D'/0) as stacks of 1-3 models (quick: 63 option combinations per molecule, thorough: all 108 and every two-atom molecule over 4 elements x 2 charges x 10 bond types), the step-by-step model agrees with the option table on all of them and every case is executed against the real bridge (identity on atoms where the table demands it, documented refusal, otherwise the molecule as prefix followed by singly bonded hydrogens whose number is decided for neutral C/N/O/halogen atoms with plain bonds); all histories of 2 (thorough: 3) calls out of reload, look at record / header / metadata, move to another name, insert a fresh or a parsed record, delete, set a header field, replace header / metadata, set / delete a metadata item, set the structure - starting from a freshly built and from a read two-record file - are enumerated with the lazy representation in the state, hold the invariants (write -> read is the identity, keys = molecule names, structures readable) and are replayed against the real SDFile with a write -> read observation after every call; seeded random molecules up to 1500 atoms, RDKit stacks of 1-4 models incl. aromatic six-rings with and without hydrogens under all nine pairs of hydrogen options in turn, random SD files and random histories of 3-8 calls are recorded and re-computed by TLC.",
+    "level_note": "Bounded: exhaustive only over the enumerated classes; beyond them recorded random executions. Which Kekule structure RDKit picks is not decided (any valid one is accepted); the number of hydrogens RDKit adds where hydrogens are implicit is decided only for neutral C, N, O, F, Cl, Br atoms with plain bonds within their default valence (elsewhere only their shape: uncharged H, one SINGLE bond to an atom of the molecule); residue-level annotations through RDKit, conformer ids > 0 and '2D' selection, metadata values with empty or blank-padded lines or lines starting with '>' are outside the domain. Trusted: TLC, the TLA+ value parser, numpy, RDKit, the projection.",
 }
